@@ -316,7 +316,7 @@ def build(recipe: dict):
             np.arange(30, len(y) - 30), max(1, len(y) // 500), replace=False)] = 0.0
     if role == "reporting":
         y = _alter_observed(y, obs, ga)
-        if recipe.get("tgap"):
+        if recipe.get("tgap") and len(temp_h) > 72:
             temp_h = temp_h.copy()
             sel = gt.choice(np.arange(24, len(temp_h) - 24), size=max(2, len(temp_h) // 400), replace=False)
             temp_h[sel] = np.nan
